@@ -444,7 +444,7 @@ fn error_cases(cnt: &Cnt, coll: &Collector) {
             let site = format!("K/errors/{}", idx.iter().map(|i| match i { 0 => "ok", 1 => "missing", _ => "wrong" }).collect::<Vec<_>>().join(","));
             let case = json!({"kind": "consts-errors", "source": src, "consts": format!("{m2:?}")});
             let m3 = m2.clone();
-            let r = catch(|| garble_lang::compile_with_constants(src, m3));
+            let r = catch(|| garble_lang::compile_with_constants(src, subject::to_consts(m3)));
             match r {
                 Err(p) => coll.push(Violation::new("C12", site, "rust-panic", desc, case, p)),
                 Ok(Ok(_)) => {
